@@ -72,6 +72,19 @@ def generate(tier, seed):
             steps.append(A("g", "g2", r))
         req = [rules[0][0], rules[0][1], rules[0][2]] if rules else ["a", "b", "c"]
         steps += ["?ga:p", "?ga:g", Q_e(req), "SV", "LD", "?ga:p", "?ga:g", Q_e(req), "?rv"]
+        # a SECOND save over a store that already holds lines, after rules were removed with auto-save off: the save must
+        # replace what the adapter held, not add to it (a stale line would come back on the reload)
+        if rnd.random() < 0.5 and (rules or g):
+            for r in rules:
+                if rnd.random() < 0.5:
+                    steps.append(R("p", "p", r))
+            for r in g:
+                if rnd.random() < 0.5:
+                    steps.append(R("g", "g", r))
+            if rnd.random() < 0.5:
+                steps.append(A("p", "p", [rnd.choice(SAFE), rnd.choice(SAFE), rnd.choice(SAFE)]))
+            steps += ["SV", "?rv", "LD", "?ga:p", "?ga:g", Q_e(req), "?rv"]
+            dist["resave_after_removal"] = dist.get("resave_after_removal", 0) + 1
         cases.append(case("eng", sp, ad, "-", steps))
         dist["roundtrips"] += 1
     return {
